@@ -125,8 +125,7 @@ def _port_text(dst):
 
 
 # ------------------------------------------------------------------------------------ record coherence
-def rule_record_coherence(eng, rep, A):
-    rule = "C03-3.record-coherence-at-stores"
+def rule_record_coherence(eng, rep, A, rule="C03-3.record-coherence-at-stores"):
     pos = result_positions(eng)
     sites = eval_sites(eng)
     cons = all_consumers(eng)
